@@ -13,12 +13,13 @@ SRC = _REPO + '/src/bloch/compiler/parser/parser.cpp'
 NAMESPACE = 'bloch::compiler'
 FUNCS = ['peek', 'previous', 'isAtEnd', 'advance', 'check', 'checkNext', 'checkFunctionAnnotation', 'match', 'reportError', 'expect',
          'parseVariableAnnotation', 'parseFunctionAnnotation', 'parseAnnotations', 'isTypeAhead']
-AST_FILTER = ['Parser::' + f for f in FUNCS] + ['Parser::parseType', 'TokenType']
+AST_FILTER = ['Parser::' + f for f in FUNCS] + ['Parser::parseType', 'Parser::parseAssignmentExpression', 'TokenType']
 SHIM = 'pann.h'
-THROWING = {'reportError', 'expect', 'parseVariableAnnotation', 'parseFunctionAnnotation', 'parseAnnotations', 'parseType_array_size'}
+THROWING = {'reportError', 'expect', 'parseVariableAnnotation', 'parseFunctionAnnotation', 'parseAnnotations', 'parseType_array_size', 'parseAssignmentExpression_head'}
 DROPS = ['diagnostic message strings: a std::string that only flows into reportError is not built (category, line, column are kept)',
          'token texts are interned identities; an AnnotationNode is a value {name, value, isVariableAnnotation, isFunctionAnnotation}; the returned vector of nodes is an array of at most ANN_MAX nodes',
          'const Token& results are returned by value (they are only read)',
+         'region parseAssignmentExpression_head: the first statement of Parser::parseAssignmentExpression (the Pratt parse of the left operand) and its `if (match(TokenType::Equals))` cut after the first statement of the branch (the parse of the right operand); the construction of the assignment node from the two operands is dropped; parsePrattExpression and the recursive call are ghost-recording models that move the cursor forward inside the token vector or raise a Parse error',
          'region parseType_array_size: in Parser::parseType, the then-branch of `if (check(TokenType::IntegerLiteral))` inside the `while (match(TokenType::LBracket))` loop (conversion of a literal array size); the local arrSize becomes a file-level variable; std::stoi is a model: value and overflow are uninterpreted functions of the (interned) literal text, and - the token being an IntegerLiteral, i.e. digits only - the only exception it can raise is std::out_of_range']
 ASSUMPTIONS = ['the token vector is what the lexer delivers: non-empty, ending in exactly one Eof token (proved for the lexer in unit LEX: tokenize.ends_with_eof)',
                'TMAXP = 8 tokens (object-size bound); the annotation loop is proved by a loop contract for any number of annotations up to ANN_MAX']
@@ -36,6 +37,7 @@ class Profile(Lower):
         (r'^std::unique_ptr<(bloch::compiler::)?AnnotationNode(, std::default_delete<.*>)?>$', 'AnnotationNode'),
         (r'^std::vector<std::unique_ptr<(bloch::compiler::)?AnnotationNode(, std::default_delete<.*>)?>(, .*)?>$', 'vec_Ann'),
         (r'^(bloch::support::)?BlochError$', 'int'),
+        (r'^std::unique_ptr<(bloch::compiler::)?Expression(, std::default_delete<.*>)?>$', 'bl_expr'),
     ]
 
     def prepare(self, docs, workdir):
@@ -140,6 +142,8 @@ class Profile(Lower):
             return 'bl_txt_lit(0)'
         if ct == 'int' and 'BlochError' in qt(n):
             return '0'
+        if ct == 'bl_expr' and len(args) == 1:
+            return self.expr(args[0])
         raise Unsupported('ctor %s/%d' % (qt(n), len(args)))
 
     def initlist(self, n):
@@ -200,6 +204,11 @@ class Profile(Lower):
         return super().self_call(name, args)
 
     def membercall_other(self, n, name, obj, args):
+        if strip(obj).get('kind') == 'CXXThisExpr' and self.fn == 'parseAssignmentExpression_head' and name in ('parsePrattExpression', 'parseAssignmentExpression'):
+            self.needs_prop = True
+            if name == 'parsePrattExpression':
+                return 'pann_parsePrattExpression(self, %s)' % self.expr(args[0])
+            return 'pann_parseAssignmentExpression_rec(self)'
         t = self.ct(obj)
         o = self.expr(obj)
         if t == 'vec_Token':
@@ -245,6 +254,33 @@ def lower(docs, prof):
         protos.append(head + ';')
         if lines is not None:
             bodies.append([head] + lines)
+    # region parseAssignmentExpression_head: left operand, '=', right operand
+    heada = 'bl_expr Parser_parseAssignmentExpression_head(struct Parser *self)'
+    try:
+        ds = cxx2c.find_functions(docs, 'parseAssignmentExpression')
+        if len(ds) != 1:
+            raise Unsupported('parseAssignmentExpression: %d definitions' % len(ds))
+        body = [k for k in kids(ds[0]) if k.get('kind') == 'CompoundStmt'][0]
+        st = kids(body)
+        if len(st) < 3 or st[0].get('kind') != 'DeclStmt' or st[1].get('kind') != 'IfStmt' or st[-1].get('kind') != 'ReturnStmt':
+            raise Unsupported('parseAssignmentExpression: no longer `left = ...; if (match(=)) {...} return left;`')
+        ifs = dict(st[1])
+        thenb = kids(ifs)[1]
+        first = kids(thenb)[0] if thenb.get('kind') == 'CompoundStmt' and kids(thenb) else None
+        if first is None or first.get('kind') != 'DeclStmt':
+            raise Unsupported('parseAssignmentExpression: the `=` branch no longer starts with the parse of the right operand')
+        then2 = dict(thenb)
+        then2['inner'] = [first]
+        ifs['inner'] = [kids(ifs)[0], then2]
+        body2 = dict(body)
+        body2['inner'] = [st[0], ifs, st[-1]]
+        d = dict(kind='FunctionDecl', name='parseAssignmentExpression_head', type=dict(qualType='std::unique_ptr<bloch::compiler::Expression> ()'), inner=[body2])
+        h3, lines3 = prof.func(d, cname='parseAssignmentExpression_head', is_method=True)
+        protos.append(heada + ';')
+        bodies.append([heada] + lines3)
+    except Unsupported as e:
+        unlowered['parseAssignmentExpression_head'] = 'EXTRACTION BREAK (PANN::parseAssignmentExpression_head): %s' % e
+        protos.append(heada + ';')
     # region parseType_array_size: conversion of the literal size in `T[123]`
     head = 'void Parser_parseType_array_size(struct Parser *self)'
     try:
@@ -291,10 +327,18 @@ int bl_exc, bl_exc_line, bl_exc_col;
 size_t g_c0;                      /* ghost: cursor on entry */
 /* region parseType_array_size: std::stoi on the text of an IntegerLiteral token (digits only: std::invalid_argument is impossible) */
 int bl_exc_kind; int arrSize;
+/* region parseAssignmentExpression_head: ghost record of the two operand parses */
+typedef int bl_expr;
+int g_pratt_calls, g_pratt_minbp, g_rec_calls; size_t g_rec_at, g_after_left;
 #ifndef NATIVE
 int __CPROVER_uninterpreted_stoi_val(int); _Bool __CPROVER_uninterpreted_stoi_oor(int);
 #define STOI_VAL(id) __CPROVER_uninterpreted_stoi_val(id)
 #define STOI_OOR(id) __CPROVER_uninterpreted_stoi_oor(id)
+size_t nondet_size_t(void); _Bool nondet_bool(void);
+/* an operand parser: consumes some tokens (stays inside the vector, never passes Eof) or raises a Parse error */
+static inline void pann_consume_some(struct Parser *self) { size_t k = nondet_size_t(); if (k >= CUR && k < TK.size) CUR = k; if (nondet_bool()) { bl_throw(BL_Parse, TK.data[CUR < TMAXP ? CUR : 0].line, TK.data[CUR < TMAXP ? CUR : 0].column); } }
+static inline bl_expr pann_parsePrattExpression(struct Parser *self, int minBp) { if (g_pratt_calls == 0) g_pratt_minbp = minBp; if (g_pratt_calls < 10) g_pratt_calls = g_pratt_calls + 1; pann_consume_some(self); if (g_pratt_calls == 1) g_after_left = CUR; return 1; }
+static inline bl_expr pann_parseAssignmentExpression_rec(struct Parser *self) { if (g_rec_calls == 0) g_rec_at = CUR; if (g_rec_calls < 10) g_rec_calls = g_rec_calls + 1; pann_consume_some(self); return 2; }
 static inline int pann_stoi(bl_txt t) { if (STOI_OOR(t.id)) { bl_exc = BL_EXC_STD; bl_exc_kind = BL_STD_OUT_OF_RANGE; bl_exc_line = 0; bl_exc_col = 0; return 0; } return STOI_VAL(t.id); }
 #endif
 """
@@ -363,6 +407,17 @@ CONTRACTS['parseType_array_size'] = {
         E('parseType.array_size.value_is_the_literals', '!STOI_OOR(TXT(%s)) ==> (bl_exc == 0 && arrSize == STOI_VAL(TXT(%s)) && CUR == %s + 1)' % (C0, C0, C0), ['C13', 'C14']),
     ],
 }
+CONTRACTS['parseAssignmentExpression_head'] = {
+    'contract': [
+        R(FRESH + ' && g_pratt_calls == 0 && g_rec_calls == 0'), A('CUR, bl_exc, bl_exc_line, bl_exc_col, g_pratt_calls, g_pratt_minbp, g_rec_calls, g_rec_at, g_after_left'),
+        E('parseAssignmentExpression.only_parse_errors', 'bl_exc == 0 || bl_exc == EXC_PARSE', ['C13']),
+        # C14 (grammar: assignmentExpression = logicalOr [ "=" assignmentExpression ]): the left operand is a full Pratt expression, and
+        # after an `=` the right operand is again an ASSIGNMENT expression (right associative: a = b = c), parsed from the token after the `=`
+        E('parseAssignmentExpression.left_operand_is_a_full_expression', 'g_pratt_calls >= 1 && g_pratt_minbp == 0', ['C14']),
+        E('parseAssignmentExpression.right_operand_is_an_assignment_expression', '(bl_exc == 0 && TY(g_after_left) == BL_Equals) ==> (g_rec_calls == 1 && g_rec_at == g_after_left + 1 && g_pratt_calls == 1)', ['C14']),
+        E('parseAssignmentExpression.no_equals_no_right_operand', '(g_pratt_calls >= 1 && TY(g_after_left) != BL_Equals) ==> (g_rec_calls == 0 && g_pratt_calls == 1 && CUR == g_after_left)', ['C14']),
+    ],
+}
 PRIM_TYPES = ['Void', 'Int', 'Float', 'Long', 'Char', 'String', 'Bit', 'Qubit', 'Boolean']
 IS_PRIM_TOK = '(' + ' || '.join('TY(CUR) == BL_%s' % t for t in PRIM_TYPES) + ')'
 CONTRACTS['isTypeAhead_skipTypeArgs'] = {
@@ -398,6 +453,8 @@ HARNESSES = [
          canaries=[('1', 'return')]),
     dict(name='parseType_array_size', fn='parseType_array_size', replace=[], flags=[], props=['C13', 'C14', 'C12'], timeout=300,
          canaries=[('bl_exc == 0', 'converted'), ('bl_exc != 0', 'reported')]),
+    dict(name='parseAssignmentExpression_head', fn='parseAssignmentExpression_head', replace=[], flags=[], props=['C14', 'C13', 'C12'], timeout=300,
+         canaries=[('bl_exc == 0 && g_rec_calls == 1', 'an assignment was parsed'), ('bl_exc == 0 && g_rec_calls == 0', 'a plain expression was parsed')]),
     dict(name='advance', fn='advance', replace=[], flags=[], props=['C13', 'C12'], timeout=120, canaries=[('1', 'return')]),
     dict(name='expect', fn='expect', replace=[], flags=[], props=['C13', 'C14', 'C12'], timeout=120, canaries=[('bl_exc == 0', 'consumed'), ('bl_exc != 0', 'reported')]),
     dict(name='parseVariableAnnotation', fn='parseVariableAnnotation', replace=[], flags=[], props=['C14', 'C13', 'C12'], timeout=300, canaries=[('bl_exc == 0', 'accepted'), ('bl_exc != 0', 'rejected')]),
